@@ -22,10 +22,10 @@ EXPLANATION = (
     "Does NOT decide: all interleavings of page requests with ingestion, stabilisation and upgrades (schedule quantifier).")
 RULES = {
     'R1': 'provenance of the tip hash in the Page aggregate and the response',
-    'R2': 'GATE(from_bytes / get_chain_with_tip ⇒ walk) with explicit errors; constant agreement of the page layout',
+    'R2': 'GATE(from_bytes / get_chain_with_tip ⇒ walk) with explicit errors; constant agreement of the page layout; get_chain_with_tip atom',
     'R3': 'constants and expressions of the page size',
     'R4': 'SPEC(get_utxos_from_chain | min_confirmations = 0) for the page call site',
-    'R5': 'resume offset flows to both sources',
+    'R5': 'resume offset flows to both sources; inclusive resume and spent filter on the unstable source (= C01.R8)',
     'R6': 'EXPR of next_page',
     'R7': 'sibling agreement: byte order of OutPoint in the stable index key vs Ord for Utxo',
     'R8': 'the stable source of a page is the delta-reverting accessor, unconditionally (= C08.R1b)',
